@@ -258,17 +258,20 @@ func propC11(c *Ctx, r *Report) {
 // staking validators of the dependency actually read.
 func stakerIdentity(c *Ctx, r *Report, rule string) {
 	gs := c.fn("node.Pegnetd.GradeS")
-	calls := findCalls(gs, "pegnet.Pegnet.IsIncludedTopPEGAddress")
+	calls := c.findCallsFam(gs, "pegnet.Pegnet.IsIncludedTopPEGAddress") // GradeS, its closures and helpers split off from it
 	if len(calls) != 1 {
 		r.viol(rule, "GradeS gates records on top-100 membership", c.pos(gs.Pos()), fmt.Sprintf("%d calls to IsIncludedTopPEGAddress: staking records are not restricted to top PEG holders", len(calls)))
 		return
 	}
 	gate := calls[0]
 	// AddSPR must be control-dependent on the gate's true result
-	adds := findCalls(gs, "github.com/pegnet/pegnet/modules/graderStake.BlockGrader.AddSPR")
+	adds := c.findCallsFam(gs, "github.com/pegnet/pegnet/modules/graderStake.BlockGrader.AddSPR")
 	gated := false
 	for _, a := range adds {
-		for _, b := range gs.Blocks {
+		if a.Parent() != gate.Parent() {
+			continue // gate and call must sit in the same function for the dominance argument
+		}
+		for _, b := range a.Parent().Blocks {
 			cond, tb, _ := condEdge(b)
 			if cond != nil && sliceHas(cond, func(v ssa.Value) bool { return v == gate.(ssa.Value) }) && blockOrDom(tb, a.Block()) && len(tb.Preds) == 1 {
 				gated = true
@@ -363,29 +366,76 @@ func ruleEveryRecordGraded(c *Ctx, r *Report, e *eraCtx, rule string) {
 			r.undecided(rule, fname(f), c.pos(f.Pos()), "function not analysable")
 			continue
 		}
-		adds := findCalls(f, "")
-		adds = nil
-		for _, ci := range callsOf(f) {
-			if shortCallee(ci.Common()) == spec.add && st.execB[ci.Block()] {
-				adds = append(adds, ci)
+		// the call may sit in the entry loop itself or in a closure / later helper that the loop calls once per entry
+		var add ssa.CallInstruction
+		var addState *fnState
+		nAdds := 0
+		var findAdd func(fs *fnState, depth int)
+		findAdd = func(fs *fnState, depth int) {
+			if fs == nil || depth > 3 {
+				return
+			}
+			for _, ci := range callsOf(fs.fn) {
+				if !fs.execB[ci.Block()] {
+					continue
+				}
+				if shortCallee(ci.Common()) == spec.add {
+					nAdds++
+					add, addState = ci, fs
+					continue
+				}
+				if sc := ci.Common().StaticCallee(); sc != nil && sameLogicalFunction(sc, fs.fn) {
+					findAdd(fs.callees[ci], depth+1)
+				}
 			}
 		}
-		if len(adds) != 1 {
-			r.viol(rule, fname(f)+" -> "+spec.add, c.pos(f.Pos()), fmt.Sprintf("%d live %s call sites for an admitted record (want 1)", len(adds), spec.add))
+		findAdd(st, 0)
+		if nAdds != 1 {
+			r.viol(rule, fname(f)+" -> "+spec.add, c.pos(f.Pos()), fmt.Sprintf("%d live %s call sites for an admitted record (want 1)", nAdds, spec.add))
 			continue
 		}
-		add := adds[0]
-		l := innermostLoop(f, add.Block())
+		skip := ""
+		// inside the function that holds the call: no nil-error return without the call (when it is not f itself)
+		loopSite := ssa.Instruction(add)
+		if addState != st {
+			done := map[*ssa.BasicBlock]bool{add.Block(): true}
+			for b := range reachAvoiding(addState.fn.Blocks[0], done) {
+				if !addState.execB[b] {
+					continue
+				}
+				if ret, ok := b.Instrs[len(b.Instrs)-1].(*ssa.Return); ok {
+					vals := addState.rets[ret]
+					ei := errResultIndex(addState.fn.Signature)
+					if ei < 0 || ei >= len(vals) || vals[ei].isNil() || vals[ei].K == ATop {
+						// reachable without the call through executable edges only?
+						if execReachAvoiding(addState, addState.fn.Blocks[0], done)[b] {
+							skip = fmt.Sprintf("%s can return at %s without the call", fname(addState.fn), c.ipos(ret))
+						}
+					}
+				}
+			}
+			// the loop in f calls that function
+			loopSite = nil
+			for ci, cs := range st.callees {
+				if cs == addState {
+					loopSite = ci
+				}
+			}
+			if loopSite == nil {
+				r.undecided(rule, fname(f)+" -> "+spec.add, c.pos(f.Pos()), "the function holding the call is not called directly from the entry loop")
+				continue
+			}
+		}
+		l := innermostLoop(f, loopSite.Block())
 		if l == nil {
 			r.viol(rule, fname(f)+" -> "+spec.add, c.ipos(add), spec.add+" is not inside the loop over the block's entries")
 			continue
 		}
-		// executable path header -> header avoiding the block of the add call (or leaving the loop by break, other than through a return of an error)
-		skip := ""
+		// executable path header -> header avoiding the block of the call (or leaving the loop by break, other than through a return of an error)
 		seen := map[*ssa.BasicBlock]bool{}
 		var walk func(b *ssa.BasicBlock)
 		walk = func(b *ssa.BasicBlock) {
-			if skip != "" || seen[b] || b == add.Block() {
+			if skip != "" || seen[b] || b == loopSite.Block() {
 				return
 			}
 			seen[b] = true
@@ -418,4 +468,26 @@ func ruleEveryRecordGraded(c *Ctx, r *Report, e *eraCtx, rule string) {
 		}
 		r.check(skip == "", rule, fname(f)+": every admitted entry reaches "+spec.add, c.ipos(add), "no executable path round the entry loop avoids the call for a well-formed, admitted record", skip+": a record that passes the stated gates is not graded (and so cannot be paid)")
 	}
+}
+
+// execReachAvoiding: blocks reachable from `from` through executable edges of the specialised CFG, not entering `avoid`.
+func execReachAvoiding(st *fnState, from *ssa.BasicBlock, avoid map[*ssa.BasicBlock]bool) map[*ssa.BasicBlock]bool {
+	seen := map[*ssa.BasicBlock]bool{}
+	if avoid[from] {
+		return seen
+	}
+	seen[from] = true
+	stack := []*ssa.BasicBlock{from}
+	for len(stack) > 0 {
+		b := stack[len(stack)-1]
+		stack = stack[:len(stack)-1]
+		for _, sx := range b.Succs {
+			if seen[sx] || avoid[sx] || !st.execE[[2]int{b.Index, sx.Index}] {
+				continue
+			}
+			seen[sx] = true
+			stack = append(stack, sx)
+		}
+	}
+	return seen
 }
